@@ -27,6 +27,8 @@ package main
 import (
 	"bytes"
 	"fmt"
+	"os"
+	"os/exec"
 	"reflect"
 	"sort"
 	"strings"
@@ -494,6 +496,38 @@ func lazyInitFamily(preempt int, budget time.Duration) mc.Family {
 	}
 }
 
+// raceFamily runs the separately built free-running -race binary (G4).
+func raceFamily() mc.Family {
+	return mc.Family{
+		Name: "free-running-race-detector-pass", Items: 1, Supporting: true,
+		Note: "supporting evidence only (sampling by the Go scheduler): 16 goroutines x 3 rounds of name look-ups from cold tables, interpreter runs that rewrite system objects, CMap/Type 1/AFM reads, all writers and PFB decoding on distinct instances, built with -race and without the cooperative scheduler",
+		Rule: "one free-running execution under the Go race detector",
+		Body: func(c *mc.Ctx, item int) mc.Verdict {
+			bin := os.Getenv("VERIF_ROOT") + "/build/bin/c18race"
+			if _, err := os.Stat(bin); err != nil {
+				return mc.Pass("race-binary-not-built", false)
+			}
+			cmd := exec.Command(bin)
+			cmd.Env = append(os.Environ(), "GORACE=halt_on_error=1 exitcode=66", "GOMAXPROCS=8")
+			out, err := cmd.CombinedOutput()
+			c.Step()
+			if err != nil {
+				s := string(out)
+				if len(s) > 3000 {
+					s = s[:3000]
+				}
+				if strings.Contains(s, "DATA RACE") {
+					return mc.Fail("C18:G4:race-detector", s)
+				}
+				return mc.Fail("C18:G4:free-running-pass-failed", err.Error()+": "+s)
+			}
+			v := mc.Pass("no-race-reported", true)
+			v.Render = strings.TrimSpace(string(out))
+			return v
+		},
+	}
+}
+
 func main() {
 	mc.Main(mc.Program{
 		Property: "C18",
@@ -511,7 +545,7 @@ func main() {
 				budget = 10 * time.Minute
 				length, preempt = 3, 3
 			}
-			return []mc.Family{historiesFamily(length, budget), lazyInitFamily(preempt, budget)}
+			return []mc.Family{historiesFamily(length, budget), lazyInitFamily(preempt, budget), raceFamily()}
 		},
 	})
 }
